@@ -44,6 +44,7 @@ enum
     MOP_BITS_HUGE,          /* an image of 4 GiB or more whose pixels pixman allocates itself */
     MOP_BITS_YUV,           /* a source image in one of the two YUV formats (yuy2, yv12): can be read, never written */
     MOP_R_FROM_IMAGE,       /* pixman_region{,32}_init_from_image of an a1 image in a slot */
+    MOP_BITS_REFUSED,       /* pixman_image_create_bits with a row stride that is not a multiple of 4: must return NULL and keep nothing */
     MOP_N
 };
 
